@@ -13,7 +13,7 @@ def drop_null_cov(sn):
 
 
 def compare_obs(ctx, got, ref, mech, scale=None, rtol=1e-11, vtol=1e-12, what='', check_rew=False, extra=None,
-                value_scale=None, rv_tol=None):
+                value_scale=None, rv_tol=None, grad_floor=0.0):
     """got: library Obs (or a snapshot); ref: result of ref.dense.propagate.
     Violations are tagged mech + ':' + field.  Returns True when everything agreed."""
     g = drop_null_cov(got if isinstance(got, dict) else snap(got))
@@ -53,7 +53,7 @@ def compare_obs(ctx, got, ref, mech, scale=None, rtol=1e-11, vtol=1e-12, what=''
             continue
         gg = g['cov'][n][1]
         rg = np.asarray(rc[n], dtype=float).ravel()
-        sc = max(float(np.max(np.abs(gg))) if gg.size else 0.0, float(np.max(np.abs(rg))) if rg.size else 0.0)
+        sc = max(float(np.max(np.abs(gg))) if gg.size else 0.0, float(np.max(np.abs(rg))) if rg.size else 0.0, grad_floor)
         ok &= ctx.close(gg, rg, mech + ':covariance-gradient', what + ' cov ' + n, rtol=max(rtol, 1e-11), scale=sc, atol=1e-300, detail=extra)
     if check_rew:
         ok &= ctx.equal(bool(g['rew']), bool(ref['rew']), mech + ':reweighted-flag', what, detail=extra)
